@@ -54,6 +54,23 @@ def build_cases(ctx, n, focus, classes, prefix, gen_kwargs=None, docs_per=3, ext
     return cases
 
 
+def collide_root(l1, l2, key="v", required=False):
+    """four inline object types whose scopes give the same Go type name (a.bC, aB.c, aBC, a_bC under the root), holding l1, l2, l2, l1 under [key]:
+    the generator must keep the two different schemas apart (suffix) and may share a declaration only between equal ones"""
+    import copy
+
+    def holder(leaf):
+        o = {"type": "object", "properties": {key: copy.deepcopy(leaf)}}
+        if required:
+            o["required"] = [key]
+        return o
+    return {"type": "object", "properties": {
+        "a": {"type": "object", "properties": {"bC": holder(l1)}},
+        "aB": {"type": "object", "properties": {"c": holder(l2)}},
+        "aBC": holder(l2),
+        "a_bC": holder(l1)}}
+
+
 def site_schema(case, path):
     """the (resolved) schema node a document path points at"""
     dg = Docs(case.schema, None)
